@@ -14,6 +14,8 @@ func TestProp_PriSequential(t *testing.T) { PartPriSeq.Run(t) }
 func TestProp_PriStress(t *testing.T)     { PartPriStress.Run(t) }
 func TestRace_Stress(t *testing.T)        { PartStressRace.Run(t) }
 func TestRace_PriStress(t *testing.T)     { PartPriStressRace.Run(t) }
+func TestProp_Tie(t *testing.T)           { PartTie.Run(t) }
+func TestRace_Tie(t *testing.T)           { PartTieRace.Run(t) }
 
 func TestReplay(t *testing.T) {
 	PartCtl.Replay(t, 1)
@@ -22,4 +24,6 @@ func TestReplay(t *testing.T) {
 	PartPriSeq.Replay(t, 1)
 	PartPriStress.Replay(t, 50)
 	PartPriStressRace.Replay(t, 50)
+	PartTie.Replay(t, 20)
+	PartTieRace.Replay(t, 20)
 }
